@@ -458,9 +458,55 @@ def reg_terafly_bits(R):
         variants={"1-level": shape_setup(1), "3-levels": shape_setup(3)},
         ensures=[("is-(X,Y,Z,1)-of-the-last-(finest)-resolution-level", shape_post)],
     )
-    R.add(f"{IO}:TeraflyImageStack.__init__", prop="C20", trusted=True, ensures=[],
-          notes="assumed: returns normally (parsing the RES(..) directory tree - os.listdir, regular expressions, np.take on names - is out of reach); "
-                "used only so that read_imgs' last branch can be stated: which arguments the constructor receives")
+    # ---- the constructor is VERIFIED (it used to be an assumed contract): what it stores, and that the only thing it does besides is ONE call of
+    # get_resolutions(root).  What stays assumed is narrower: the classmethod get_resolutions (the parse of the RES(..) directory tree: os.listdir,
+    # regular-expression groups, np.take on names, a probe read of one tile per level) returns a triple and raises nothing.
+    def resolutions_result(S, fr):
+        t = tuple(S.opaque({}, nm) for nm in ("res", "res_dirs", "res_patch_sizes"))
+        S.eng.ghost["terafly_resolutions"] = t
+        return t
+
+    R.add(f"{IO}:TeraflyImageStack.get_resolutions", prop="C20", trusted=True, returns=resolutions_result, ensures=[],
+          notes="assumed: returns a triple (resolutions, directories, patch sizes) and raises nothing on a well-formed TeraFly root (the parse of the RES(..) "
+                "directory tree is out of reach: os.listdir order, regular-expression groups, np.take on names, a probe read of one tile per level)")
+
+    def ti_setup(lru):
+        def f(S):
+            from swcgeom.images.io import TeraflyImageStack
+
+            d = dict(self=S.obj(TeraflyImageStack), root=sym_name(S, "root"), dtype=np.uint8)
+            if lru != "default":
+                d["lru_maxsize"] = None if lru is None else S.int("lru_maxsize")
+            return d
+
+        return f
+
+    def ti_fields(E, v, o):
+        f = v["self"].fields
+        t = E.ghost.get("terafly_resolutions")
+        return (set(f) == {"root", "dtype", "res", "res_dirs", "res_patch_sizes", "_listdir", "_read_patch"} and f["root"] is v["root"] and f["dtype"] is v["dtype"]
+                and t is not None and f["res"] is t[0] and f["res_dirs"] is t[1] and f["res_patch_sizes"] is t[2])
+
+    def ti_memo(E, v, o):
+        f = v["self"].fields
+        a, b = f.get("_listdir"), f.get("_read_patch")
+        if not (isinstance(a, X.MemoFn) and isinstance(b, X.MemoFn)):
+            return False
+        want = v.get("lru_maxsize", 128)
+        same = (b.maxsize is want) or (isinstance(want, int) and b.maxsize == want)
+        return a.maxsize is None and same and a.func.node.name == "listdir" and b.func.node.name == "read_patch"
+
+    def ti_protocol(E, v, o):
+        cs = calls(E, "TeraflyImageStack.get_resolutions")
+        foreign = [nm for nm, _ in E.call_log if nm.split(".")[0] in ("nrrd", "np", "tifffile", "v3dpy", "TiffFile", "TiffPageSeries", "TiffWriter")]
+        return len(cs) == 1 and cs[0]["root"] is v["root"] and foreign == [] and len(E.call_log) == 1
+
+    R.add(f"{IO}:TeraflyImageStack.__init__", prop="C20",
+          variants={"default-cache-size": ti_setup("default"), "cache-size-given": ti_setup("int"), "unbounded-cache": ti_setup(None)},
+          ensures=[("stores-root-dtype-and-the-three-results-of-get_resolutions(root)-and-the-two-readers-nothing-else", ti_fields),
+                   ("directory-lister-memoised-without-bound-tile-reader-memoised-with-the-given-cache-size", ti_memo),
+                   ("asks-get_resolutions-once-for-this-root-and-touches-no-file-itself", ti_protocol)],
+          notes="verified; the two nested readers are only stored here (decorators applied through the functools models), they run in __getitem__ / get_patch")
 
 
 # =========================================================================== read_imgs / read_images
@@ -566,9 +612,13 @@ def ri_content(E, v, o):
         a = src["npy"]
         return B.conj(shape_is(held(vv), B.in4(a)[0]), rescaled(held(vv), a, dt), held(vv).dtype == want_dtype(a, dt), B.nd_only_field(E, vv, None))
     if name == "TeraflyImageStack":
-        cs = calls(E, "TeraflyImageStack.__init__")
+        # the constructor (verified, inlined here): built for THIS path with the requested dtype; lru_maxsize is the only option it takes
+        cs = calls(E, "TeraflyImageStack.get_resolutions")
         extra = fwd_kw(E)
-        return len(cs) == 1 and cs[0]["self"] is st and cs[0]["root"] is E.spec_extra["fname"] and cs[0]["dtype"] is dt and all(cs[0].get(k) is x for k, x in extra.items())
+        f = st.fields
+        rp = f.get("_read_patch")
+        size_ok = isinstance(rp, X.MemoFn) and (rp.maxsize is extra["lru_maxsize"] if "lru_maxsize" in extra else rp.maxsize == 128)
+        return len(cs) == 1 and cs[0]["root"] is E.spec_extra["fname"] and f.get("root") is E.spec_extra["fname"] and f.get("dtype") is dt and size_ok
     return False
 
 
@@ -901,6 +951,14 @@ def reg_to_image_stack_plumbing(R):
             return False
         return z3.And(zint(L.n) == n, z3.ForAll([j], z3.Implies(z3.And(0 <= j, j < n), z3.Select(L.cols[0], j) == at(j))))
 
+    def call_slices(E, v, o):
+        cs = calls(E, "np.stack")
+        if len(cs) != 1:
+            return False
+        vv = dict(v)
+        vv["result"] = cs[0]["frames"]  # the frames that were stacked along the new first axis
+        return B.tr_slices(E, vv, o)
+
     R.add(
         f"{TR}:ToImageStack.__call__",
         prop="C20",
@@ -908,7 +966,8 @@ def reg_to_image_stack_plumbing(R):
         requires=[("resolution-positive", B.res_positive)] + [B.scene_wf(w) for w in B.SCENE_WF],
         inlined_loops={TRANSFORM_KEY: transform_loop()},
         ensures=[("result-is-the-frames-of-all-z-slices-stacked-along-a-new-FIRST-axis-(Z,X,Y)-in-slice-order", call_stack)] + plumbing
-        + [("box-is-tight-to-less-than-one-unit", ts_box("tight")), ("box-corners-are-whole-numbers", ts_box("integral"))],
+        + [("box-is-tight-to-less-than-one-unit", ts_box("tight")), ("box-corners-are-whole-numbers", ts_box("integral")),
+           ("stack-has-one-slice-for-every-voxel-centre-below-the-box-top-in-order-each-over-the-x,y-range-of-the-box", call_slices)],
         notes="np.stack(list(transform(x, verbose=False)), axis=0): transform is inlined (its loop cut by the invariant of its own contract)",
     )
 
